@@ -3,6 +3,8 @@
 From Coq Require Export List NArith Bool Ascii String.
 Export ListNotations.
 Open Scope N_scope.
+(* `String` is exported for literals only; `length` always means the list one. *)
+Notation length := List.length (only parsing).
 
 (* A Rust `String`/`&str` is modelled as the list of its Unicode scalar values. *)
 Definition str := list N.
